@@ -8,13 +8,68 @@ import (
 
 	"verifharness/desc"
 	"verifharness/ev"
+	"verifharness/lib"
 	"verifharness/model"
 )
 
 // ---- C04: nested validation reaches exactly the marked sub-objects and names them by path ----
 
+// deepChain builds a linked list of Tree nodes (through Left) of the given
+// length; every node at a position listed in emptyAt has an empty Name.
+func deepChain(n int, emptyAt map[int]bool) desc.V {
+	rt := lib.Types["Tree"]
+	idx := func(name string) int {
+		f, _ := rt.FieldByName(name)
+		return f.Index[0]
+	}
+	var build func(i int) desc.V
+	build = func(i int) desc.V {
+		v := zeroDesc(rt)
+		if !emptyAt[i] {
+			v.E[idx("Name")] = desc.Str("ab")
+		}
+		if i+1 < n {
+			v.E[idx("Left")] = desc.V{E: []desc.V{build(i + 1)}}
+		}
+		return v
+	}
+	return build(0)
+}
+
 func genC04Case(t *rapid.T) *StructCase {
 	marks := []string{"required|need", "exist", "required|need", "exist", "-", "-"}
+	if rapid.IntRange(0, 39).Draw(t, "wideStruct") == 0 {
+		// a very wide struct: more than 256 fields, rules and marked sub-objects among the last ones
+		n := rapid.IntRange(250, 300).Draw(t, "width")
+		inner := desc.T{K: "struct", Fields: []desc.F{{Name: "A", T: desc.Scalar("string"), Tags: map[string]string{"valid": "required|inner A"}}, {Name: "B", T: desc.Scalar("int")}}}
+		ty := desc.T{K: "struct"}
+		val := desc.V{}
+		for i := 0; i < n; i++ {
+			f := desc.F{Name: fmt.Sprintf("W%03d", i), T: desc.Scalar("int")}
+			v := desc.V{I: int64(i % 3)} // every third field is zero
+			switch {
+			case i >= n-12 && i%4 == 1:
+				f.T = desc.Ptr(inner)
+				f.Tags = map[string]string{"valid": rapid.SampledFrom([]string{"required|need", "exist"}).Draw(t, "wideMark")}
+				v = desc.V{E: []desc.V{{E: []desc.V{{}, {I: int64(i)}}}}} // populated, inner A empty
+			case i >= n-12 || i < 3 || i%50 == 0:
+				f.Tags = map[string]string{"valid": fmt.Sprintf("required|w%d", i)}
+			}
+			ty.Fields = append(ty.Fields, f)
+			val.E = append(val.E, v)
+		}
+		return &StructCase{Root: desc.Ptr(ty), Val: desc.V{E: []desc.V{val}}}
+	}
+	if rapid.IntRange(0, 24).Draw(t, "deepChain") == 0 {
+		// a very deep (but narrow) graph: 20..70 nested levels
+		n := rapid.IntRange(20, 70).Draw(t, "chainLen")
+		empty := map[int]bool{n - 1: true}
+		for i := rapid.IntRange(0, 3).Draw(t, "moreEmpty"); i > 0; i-- {
+			empty[rapid.IntRange(0, n-1).Draw(t, "emptyAt")] = true
+		}
+		return &StructCase{Root: desc.Ptr(desc.Named("Tree")), Val: desc.V{E: []desc.V{deepChain(n, empty)}},
+			PerType: map[string]map[string]string{"Tree": {"Left": rapid.SampledFrom([]string{"required|need", "exist"}).Draw(t, "chainMark"), "Name": "required|deep name"}}}
+	}
 	if rapid.IntRange(0, 2).Draw(t, "mode") > 0 {
 		return genNamedCase(t, namedOpts{roots: []string{"Tree", "Tree", "Top", "Mid"}, marks: marks, msgMode: rapid.SampledFrom([]int{1, 2}).Draw(t, "msgs"),
 			maxDepth: ev.Pick(5, 8), density: 6})
